@@ -506,3 +506,178 @@ def msg_ec(ex, st, m):
     if getattr(ex, 'spec_facts', None) is not None:
         ex.spec_facts.extend(ex.type_facts(st, t, DictT(STR)))
     return SV(t, DictT(STR))
+
+
+def _offset_re():
+    from pyvc import regex
+    return regex.Compiled(r'(\+(1400|(1[0-3]|0[0-9])[0-5][0-9])|-(1200|(1[01]|0[0-9])[0-5][0-9]))').re
+
+
+@specfunc('is_hl7_offset')
+def is_hl7_offset(ex, st, s):
+    """s is a time-zone offset as HL7 defines it for TM/DTM: +0000..+1400 or -0000..-1200"""
+    return SV(z3.InRe(ex.term(s, 'S'), _offset_re()), BOOL)
+
+
+@specfunc('tail5')
+def tail5(ex, st, s):
+    """the last five characters of s, ignoring one trailing newline when the five before it form an offset (the `$`
+    anchor tolerates one trailing newline and the leftmost match wins)"""
+    t = ex.term(s, 'S')
+    n = z3.Length(t)
+    before_nl = z3.And(n >= 6, z3.SubString(t, n - 1, 1) == z3.StringVal('\n'), z3.InRe(z3.SubString(t, n - 6, 5), _offset_re()))
+    end = z3.If(before_nl, n - 1, n)
+    return SV(z3.SubString(t, end - 5, 5), STR)
+
+
+@specfunc('replace_all')
+def replace_all(ex, st, s, a, b):
+    f = ex.uf('replace_all', StrS, StrS, StrS, StrS)
+    return SV(f(ex.term(s, 'S'), ex.term(a, 'S'), ex.term(b, 'S')), STR)
+
+
+# ---- datetime.strptime / strftime (ASSUMED contracts on the C library; see DESIGN 2.4): uninterpreted acceptance
+# predicate and value function of (text, format)
+def _strptime_ok(ex):
+    return ex.uf('strptime_ok', StrS, StrS, BoolS)
+
+
+def _strptime_val(ex):
+    return ex.uf('strptime_val', StrS, StrS, IntS)
+
+
+@specfunc('strptime_ok')
+def strptime_ok(ex, st, s, f):
+    return SV(_strptime_ok(ex)(ex.term(s, 'S'), ex.term(f, 'S')), BOOL)
+
+
+@specfunc('strptime_val')
+def strptime_val(ex, st, s, f):
+    return SV(_strptime_val(ex)(ex.term(s, 'S'), ex.term(f, 'S')), ObjT('DateTime'))
+
+
+@specfunc('date_part')
+def date_part(ex, st, s):
+    """value with its offset removed, as _split_offset computes it"""
+    t5 = tail5(ex, st, s)
+    isoff = z3.InRe(t5.term, _offset_re())
+    f = ex.uf('replace_all', StrS, StrS, StrS, StrS)
+    return SV(z3.If(isoff, f(ex.term(s, 'S'), t5.term, z3.StringVal('')), ex.term(s, 'S')), STR)
+
+
+@specfunc('offset_part')
+def offset_part(ex, st, s):
+    t5 = tail5(ex, st, s)
+    isoff = z3.InRe(t5.term, _offset_re())
+    return SV(z3.If(isoff, t5.term, z3.StringVal('')), STR)
+
+
+@specfunc('date_fmt')
+def date_fmt(ex, st, s):
+    """format _get_date_format selects by length ('' if it rejects)"""
+    n = z3.Length(ex.term(s, 'S'))
+    return SV(z3.If(n == 4, z3.StringVal('%Y'), z3.If(n == 6, z3.StringVal('%Y%m'), z3.If(n == 8, z3.StringVal('%Y%m%d'), z3.StringVal('')))), STR)
+
+
+@specfunc('date_fmt_ok')
+def date_fmt_ok(ex, st, s):
+    n = z3.Length(ex.term(s, 'S'))
+    return SV(z3.Or(n == 4, n == 6, n == 8), BOOL)
+
+
+@specfunc('time_fmt_ok')
+def time_fmt_ok(ex, st, s):
+    t = ex.term(s, 'S')
+    n = z3.Length(t)
+    return SV(z3.Or(n == 2, n == 4, n == 6, z3.And(n >= 8, n <= 11, z3.SubString(t, 6, 1) == z3.StringVal('.'))), BOOL)
+
+
+@specfunc('time_fmt')
+def time_fmt(ex, st, s):
+    t = ex.term(s, 'S')
+    n = z3.Length(t)
+    return SV(z3.If(n == 2, z3.StringVal('%H'), z3.If(n == 4, z3.StringVal('%H%M'), z3.If(n == 6, z3.StringVal('%H%M%S'),
+                                                                                         z3.StringVal('%H%M%S.%f')))), STR)
+
+
+@specfunc('time_precision')
+def time_precision(ex, st, s):
+    t = ex.term(s, 'S')
+    n = z3.Length(t)
+    return SV(z3.If(z3.And(n >= 8, n <= 11), n - 7, 4), INT)
+
+
+@specfunc('lvl_or_default')
+def lvl_or_default(ex, st, lvl):
+    """the validation level in force: the argument, or the process default when it is None"""
+    d = ex.H(st, 'g.hl7apy:_DEFAULT_VALIDATION_LEVEL')
+    if lvl.is_py:
+        return SV(d, INT) if lvl.py is None else mk(lvl.py)
+    if lvl.ty.kind == 'int':
+        return lvl
+    t = ex.term(lvl, 'V')
+    return SV(z3.If(t == VNONE, d, Val.ival(t)), INT)
+
+
+@specfunc('is_integral')
+def is_integral(ex, st, v):
+    """isinstance(v, numbers.Integral) for the value kinds of the model (ints and bools)"""
+    t = ex.term(v, 'V')
+    return SV(z3.Or(Val.is_VInt(t), Val.is_VBool(t)), BOOL)
+
+
+@specfunc('allowed_format')
+def allowed_format(ex, st, obj, f):
+    """f is one of the allowed_formats of obj's dynamic class (a class attribute of the real classes)"""
+    cls = ex.H(st, 'cls')[ex.term(obj, 'R')]
+    ft = ex.term(f, 'S')
+    alts = []
+    for n, c in ex.world.classes.items():
+        af = getattr(c, 'allowed_formats', None)
+        if af is not None and n in ex.world.subclasses('DateTimeDataType'):
+            alts.append(z3.And(cls == ex.world.cid(n), z3.Or(*[ft == z3.StringVal(x) for x in af]) if af else z3.BoolVal(False)))
+    return SV(z3.Or(*alts), BOOL)
+
+
+@specfunc('offset_in_range')
+def offset_in_range(ex, st, off):
+    """(hour, minute) of the offset text (as strptime('%H%M') reads it) does not exceed +14:00 / -12:00"""
+    o = ex.term(off, 'S')
+    d = _strptime_val(ex)(z3.SubString(o, 1, z3.Length(o) - 1), z3.StringVal('%H%M'))
+    h = ex.H(st, 'f.DateTime.hour')[d]
+    m = ex.H(st, 'f.DateTime.minute')[d]
+    sign = z3.SubString(o, 0, 1)
+    over = lambda H: z3.Or(h > H, z3.And(h == H, m > 0))
+    return SV(z3.And(z3.Implies(sign == z3.StringVal('+'), z3.Not(over(14))),
+                     z3.Implies(sign == z3.StringVal('-'), z3.Not(over(12)))), BOOL)
+
+
+@axioms
+def strptime_axioms(ex):
+    """ASSUMED facts about datetime.strptime (validated by selftest/diff_builtins.py): a text accepted under one of the
+    numeric formats used by the library is not empty"""
+    ok = ex.uf('strptime_ok', StrS, StrS, BoolS)
+    s = z3.String('sp_s')
+    fmts = ['%H%M', '%Y', '%Y%m', '%Y%m%d', '%H', '%H%M%S', '%H%M%S.%f', '%Y%m%d%H', '%Y%m%d%H%M', '%Y%m%d%H%M%S', '%Y%m%d%H%M%S.%f']
+    return [z3.ForAll([s], z3.Implies(ok(s, z3.StringVal(f)), z3.Length(s) >= 1)) for f in fmts]
+
+
+@specfunc('strftime')
+def strftime_(ex, st, v, f):
+    t = ex.term(v, 'V')
+    return SV(ex.uf('strftime', t.sort(), StrS, StrS)(t, ex.term(f, 'S')), STR)
+
+
+@specfunc('contains')
+def contains_(ex, st, s, sub):
+    return SV(z3.Contains(ex.term(s, 'S'), ex.term(sub, 'S')), BOOL)
+
+
+@specfunc('drop_last')
+def drop_last(ex, st, s, k):
+    """s[:-k] for k >= 1 (python slice semantics)"""
+    t = ex.term(s, 'S')
+    n = z3.Length(t)
+    kk = ex.term(k, 'I')
+    keep = z3.If(n - kk < 0, 0, n - kk)
+    return SV(z3.SubString(t, 0, keep), STR)
